@@ -6,7 +6,7 @@
    repaired by the fix: commits 50fc060 and 1070095). *)
 From Coq Require Import ZArith List Bool Lia.
 From Mistletoe Require Import Base.Sx Base.PyStr Base.PyText Gen.GenTables Gen.GenConfig Model.Tree Model.CoreTokens Model.Block Model.Build
-     Model.MarkdownRenderer Model.Parser Proofs.PlainProse Proofs.Prose Proofs.ProseLines Proofs.ListLaw Proofs.FenceLaw Spec.Fragment Proofs.InertProse Proofs.RefSentence Proofs.LinkSentence Proofs.EmphPhrases Proofs.LinkPhrases Proofs.MixPhrases Proofs.CodeSpan Proofs.HardBreaks Proofs.BreakBlocks Proofs.StrikeSentence Proofs.EscSentence Proofs.ImageSentence Proofs.LeafSpans Proofs.OneInline Proofs.FragmentP Proofs.FragmentDoc Proofs.FragmentHtml.
+     Model.MarkdownRenderer Model.Parser Proofs.PlainProse Proofs.Prose Proofs.ProseLines Proofs.ListLaw Proofs.FenceLaw Spec.Fragment Proofs.InertProse Proofs.RefSentence Proofs.LinkSentence Proofs.EmphPhrases Proofs.LinkPhrases Proofs.MixPhrases Proofs.CodeSpan Proofs.HardBreaks Proofs.BreakBlocks Proofs.StrikeSentence Proofs.EscSentence Proofs.ImageSentence Proofs.LeafSpans Proofs.OneInline Proofs.EmphSimple Proofs.NestedEmph Proofs.FragmentP Proofs.FragmentDoc Proofs.FragmentHtml.
 Import ListNotations.
 Local Open Scope Z_scope.
 
@@ -302,6 +302,32 @@ Section RT.
     destruct more; discriminate.
   Qed.
 
+  (* the fragments of the tokens inside a nested emphasis spell the text between the outer runs *)
+  Lemma nest_frags : forall ps g zz, plain_text g = true -> plain_text zz = true -> Forall phrase_ok ps ->
+    Forall (fun f => mem 10 (ftext f) = false) (flat_map frags (nest_toks g ps zz)) /\
+    concat (map ftext (flat_map frags (nest_toks g ps zz))) = g ++ body ps ++ zz.
+  Proof.
+    induction ps as [|[[[ch k] w] t] r IH]; intros g zz Hg Hzz Hok.
+    - cbn [nest_toks body app]. assert (Hp : plain_text (g ++ zz) = true) by (apply plain_app2; assumption).
+      destruct (g ++ zz) as [|c0 l0] eqn:E; cbn [EmphSentence.raw_if flat_map frags app map concat ftext Fw]; [split; [constructor|reflexivity]|].
+      split; [repeat constructor; cbn [ftext Fw]; apply (plain_no 10 _ eq_refl Hp)|rewrite app_nil_r; reflexivity].
+    - apply Forall_cons_iff in Hok as [Hp Hr]. destruct Hp as (Hch & Hk & Hw & _ & _ & _ & Ht & _).
+      destruct (IH t zz Ht Hzz Hr) as [HF E].
+      assert (R10 : mem 10 (repeat ch (S k)) = false) by (apply mem_repeat; destruct Hch as [->| ->]; discriminate).
+      assert (K2 : k = 0%nat \/ k = 1%nat) by lia.
+      cbn [nest_toks body]. rewrite flat_map_app.
+      assert (Eg : flat_map frags (EmphSentence.raw_if g) = match g with [] => [] | _ => [Fw g] end) by (destruct g; reflexivity).
+      rewrite Eg. split.
+      + apply Forall_app. split; [destruct g; [constructor|repeat constructor; cbn [ftext Fw]; apply (plain_no 10 _ eq_refl Hg)]|].
+        cbn [flat_map]. apply Forall_app. split; [|exact HF].
+        destruct K2 as [->| ->]; [change (Z.of_nat 1 =? 2) with false|change (Z.of_nat 2 =? 2) with true]; cbv iota; cbn [frags flat_map app ftext F Fw]; repeat constructor; cbn [ftext F Fw];
+          try (apply (plain_no 10 _ eq_refl); assumption); try exact R10; destruct Hch as [->| ->]; reflexivity.
+      + rewrite map_app, concat_app. cbn [flat_map]. rewrite map_app, concat_app, E.
+        assert (Egt : concat (map ftext match g with [] => [] | _ => [Fw g] end) = g) by (destruct g; [reflexivity|cbn [map concat ftext Fw]; apply app_nil_r]).
+        rewrite Egt. f_equal.
+        destruct K2 as [->| ->]; [change (Z.of_nat 1 =? 2) with false|change (Z.of_nat 2 =? 2) with true]; cbv iota; cbn [frags flat_map app map concat ftext F Fw repeat]; rewrite ?app_nil_r; repeat (rewrite <- ?app_assoc; cbn [app]); reflexivity.
+  Qed.
+
   Lemma rt_one c0 pre x post : wf_b (FOne c0 pre x post) = true -> RT (FOne c0 pre x post).
   Proof.
     intros Hw. destruct (one_wf _ _ _ _ Hw) as (Hok & _). destruct (inl_plain _ _ _ Hok) as [Hpre Hpost].
@@ -311,7 +337,7 @@ Section RT.
     assert (EF : exists frs, flat_map frags (RawText (c0 :: pre) :: inl_tok x :: EmphSentence.raw_if post) =
                  Fw (c0 :: pre) :: frs ++ match post with [] => [] | _ => [Fw post] end /\
                  Forall (fun f => mem 10 (ftext f) = false) frs /\ concat (map ftext frs) = inl_text x).
-    { destruct x as [w|c|w d]; cbn [inl_tok inl_text] in *.
+    { destruct x as [w|c|w d|ch k h ps z]; cbn [inl_tok inl_text] in *.
       - exists [F $"~~"; Fw w; F $"~~"]. split; [destruct post; reflexivity|]. split; [|reflexivity].
         unfold mem in N10. rewrite !existsb_app in N10. apply orb_false_iff in N10 as [_ N10]. apply orb_false_iff in N10 as [N10 _].
         repeat constructor; cbn [ftext F Fw]; try reflexivity. exact N10.
@@ -319,7 +345,18 @@ Section RT.
       - exists [F $"!"; F $"["; Fw w; F $"]"; F $"("; F d; F $")"]. split; [destruct post; reflexivity|]. split; [|cbn [map concat ftext F Fw app]; rewrite ?app_nil_r; reflexivity].
         unfold mem in N10. cbn [app existsb] in N10. rewrite !existsb_app in N10. cbn [existsb] in N10. rewrite !existsb_app in N10.
         repeat (apply orb_false_iff in N10; destruct N10 as [? N10]).
-        repeat constructor; cbn [ftext F Fw]; try reflexivity; assumption. }
+        repeat constructor; cbn [ftext F Fw]; try reflexivity; assumption.
+      - cbn [inl_ok] in Hok. unfold nest_ok in Hok. repeat rewrite andb_true_iff in Hok.
+        destruct Hok as [[[[[[[[[[[[[H1 H2] _] _] H5] _] _] _] H9] H10] _] _] _] _].
+        assert (Hch : ch = 42 \/ ch = 95) by (apply orb_true_iff in H1 as [E|E]; apply Z.eqb_eq in E; [left|right]; exact E).
+        assert (Hps : Forall phrase_ok ps) by (apply Forall_forall; intros p Hp; rewrite forallb_forall in H9; apply EmphPhrases.phrase_okb_spec; apply H9; exact Hp).
+        apply Nat.leb_le in H2. assert (K2 : k = 0%nat \/ k = 1%nat) by lia.
+        destruct (nest_frags ps h z H5 H10 Hps) as [HF E].
+        assert (R10 : mem 10 (repeat ch (S k)) = false) by (apply mem_repeat; destruct Hch as [->| ->]; discriminate).
+        exists ([F (repeat ch (S k))] ++ flat_map frags (nest_toks h ps z) ++ [F (repeat ch (S k))]). split; [|split].
+        + unfold nest_of. destruct K2 as [->| ->]; [change (Z.of_nat 1 =? 2) with false|change (Z.of_nat 2 =? 2) with true]; cbv iota; destruct post; cbn [flat_map frags app repeat EmphSentence.raw_if]; rewrite ?app_nil_r, <- ?app_assoc; reflexivity.
+        + apply Forall_app. split; [repeat constructor; exact R10|]. apply Forall_app. split; [exact HF|repeat constructor; exact R10].
+        + rewrite !map_app, !concat_app, E. cbn [map concat ftext F]. rewrite !app_nil_r. reflexivity. }
     destruct EF as (frs & -> & Hf & Ec).
     rewrite plain_from_flat.
     - assert (E : concat (map ftext (Fw (c0 :: pre) :: frs ++ match post with [] => [] | _ => [Fw post] end)) = c0 :: one_body pre x post).
